@@ -87,9 +87,11 @@ def verify_vnode_generator(run, tier, prefix='C08/vnode_generator', only=None):
         before = len(sink.items)
         it.assign(stmt.target, e, fr)
         try:
-            it.exec_block(stmt.body, fr)
-        except (BreakSig, ContinueSig):
-            raise Unsupported('break/continue in vnode_generator')
+            it.exec_loop_body(stmt.body, fr)
+        except ContinueSig:
+            pass          # `continue` ends the step like falling off the end of the body
+        except BreakSig:
+            raise Unsupported('break in vnode_generator')
         new = sink.items[before:]
         ctx.oblige(prefix + '/step.record-joins-its-group', z3.BoolVal(grp.ok) if not hasattr(grp, 'same') else grp.same)
         is_end = endbit(k)
@@ -208,6 +210,7 @@ def an_C08_paths(mod, name, paths, fq):
         return []
     ob = 'C08/paths/%s.%s' % (mod, name)
     bad = None
+    unknown = None
     saw = False
     for s in paths:
         if s.outcome != 'return' or s.text is None:
@@ -225,7 +228,14 @@ def an_C08_paths(mod, name, paths, fq):
             saw = True
             for tag, term in order:
                 if tag not in whole:
-                    bad = 'a path shown comes from a lookup list that is not the whole window\'s'
+                    arg = [a for t_, a, l_ in s.lookups if t_ == tag]
+                    o = getattr(arg[0], 'origin', None) if arg else None
+                    if isinstance(o, tuple) and o[0] == 'comp':
+                        bad = 'a path shown comes from a lookup list that is not the whole window\'s'
+                    else:
+                        # the records handed to the reassembly were not selected by a comprehension over the window: the
+                        # selection is not recognised (e.g. an explicit loop) - undecided unless a failing input is found
+                        unknown = 'the selection of the lookup records handed to the reassembly is not in a form the contract recognises'
             # the k-th path shown is the k-th lookup of the window (positions proved under the path condition);
             # contracts/decoders.py: C08_ORDER_ONLY lists the two decoders that only have to keep lookup order
             from contracts.decoders import C08_ORDER_ONLY
@@ -245,6 +255,10 @@ def an_C08_paths(mod, name, paths, fq):
                         bad = 'path argument %d is not the next lookup of the window (lookup %s) but lookup %s' % (k, z3.simplify(earlier), z3.simplify(t_))
     if not saw:
         return []
+    if bad is None and unknown is not None:
+        return [DCK.rec(ob, 'refuted', 'symbolic execution', 0, fq, unknown, viol={'request': {'kind': 'lookup_search', 'budget': 300, 'decoder': name},
+                                                                                'what': '%s: %s' % (name, unknown), 'solver_output': unknown,
+                                                                                'must_reproduce': True})]
     if bad is None:
         return [DCK.rec(ob, 'proved', 'symbolic execution: path tokens are lookups of the whole window in order', 0, fq)]
     return [DCK.rec(ob, 'refuted', 'symbolic execution', 0, fq, bad, viol={'request': {'kind': 'lookup_search', 'budget': 300, 'decoder': name},
